@@ -27,7 +27,9 @@ REQUIRED_FLAGS = ["track_channel_not_zero", "configuration_history", "rest_cross
 SIG = {"44": (4, 4), "34": (3, 4), "24": (2, 4), "68": (6, 8), "58": (5, 8), "22": (2, 2), "38": (3, 8),
        # every other way of writing a whole number of eighths between 2 and 16 with numerator or denominator at a limit
        "1_4": (1, 4), "1_2": (1, 2), "1_1": (1, 1), "18_16": (18, 16), "2_8": (2, 8), "16_8": (16, 8), "4_16": (4, 16),
-       "3_2": (3, 2), "2_1": (2, 1), "9_8": (9, 8), "15_8": (15, 8), "32_16": (32, 16), "7_8": (7, 8), "12_8": (12, 8)}   # a 36-tick note fills a 3/8 bar
+       "3_2": (3, 2), "2_1": (2, 1), "9_8": (9, 8), "15_8": (15, 8), "32_16": (32, 16), "7_8": (7, 8), "12_8": (12, 8),
+       # the same bars written with fine denominators (a beat of 1.5 or 0.75 ticks)
+       "16_64": (16, 64), "24_64": (24, 64), "40_64": (40, 64), "48_128": (48, 128), "12_32": (12, 32), "20_32": (20, 32)}   # a 36-tick note fills a 3/8 bar
 FL = list(itertools.product((True, False), repeat=4))   # running, fuse_track, fuse_value, fuse_velocity
 
 
